@@ -22,15 +22,18 @@ impl Parsable for Glue {
                         super::dimen::scan_and_apply_units(
                             input,
                             first_token,
-                            i.abs(),
+                            // As in scan_dimen, saturate the absolute value of i32::MIN
+                            i.checked_abs().unwrap_or(i32::MAX),
                             Scaled::ZERO,
                             None,
                         )? * negative
                             * i.signum()
                     }
-                    InternalNumber::Dimen(d) => d * negative,
+                    // Registers can hold i32::MIN after arithmetic wraps around.
+                    // As when parsing integers, negating this value wraps.
+                    InternalNumber::Dimen(d) => d.wrapping_mul(negative),
                     InternalNumber::Glue(g) => {
-                        return Ok(g * negative);
+                        return Ok(g.wrapping_mul(negative));
                     }
                 }
             }
